@@ -161,6 +161,13 @@ def run(ctx):
                 sd = [c2 for c2 in p.conds() if c2.term[0] == "discr" and mentions(c2.term[1], lambda s: s[0] == "field" and s[3] == "size")]
                 good = bool(sd) and (sd[-1].fact == ("eq", 0) or (sd[-1].fact[0] == "ne" and 1 in sd[-1].fact[1]))
                 ctx.check(good, "D2-MISSING", VS, "missing-size", "no recorded size -> MissingSize", "MissingSize is returned although a size is recorded", fn_span(body))
+        # every outcome of verify_size is one of the four the property names: Ok, Size, MissingSize, or a propagated I/O error; and the
+        # path on which no size is recorded ends in MissingSize (not in some other error)
+        nosize = [p for p in ret_paths(ps) if any(c2.term[0] == "discr" and mentions(c2.term[1], lambda s_: s_[0] == "field" and s_[3] == "size") and
+                                                  (c2.fact == ("eq", 0) or (c2.fact[0] == "ne" and 1 in c2.fact[1])) for c2 in p.conds())]
+        okm = bool(nosize) and all(unwrap_err(p.end[1]) is not None and agg_variant(unwrap_err(p.end[1])) and agg_variant(unwrap_err(p.end[1]))[1] == "MissingSize" for p in nosize)
+        ctx.check(okm, "D2-MISSING", VS, "no-size-is-missing-size", "an entry without a recorded size -> Err(MissingSize(path))",
+                  "verify_size does not answer MissingSize when the entry records no size (%s)" % sorted({str(agg_variant(unwrap_err(p.end[1]))[1]) if unwrap_err(p.end[1]) is not None and agg_variant(unwrap_err(p.end[1])) else "?" for p in nosize}), fn_span(body))
         errprop(ctx, VS, ps, body, rule="D2-ERRPROP", no_effects_after_error=(), floor=2)
 
     # ---- D3 find_entry
@@ -190,6 +197,28 @@ def run(ctx):
             ctx.check(bool(okret), "D3-LOOKUP", FE, "first-hit-returns", "the first hit is returned", "a hit does not return the entry that was found", fn_span(body), nontrivial=False)
         ctx.check(shapes == {"component", "component.join(previous)"}, "D3-LOOKUP", FE, "key-growth", "candidate = component, then component.join(previous candidate)",
                   "the lookup key grows as %s; expected the trailing sub-path to grow by prepending each earlier component" % sorted(shapes), fn_span(body))
+        # which map is searched: the one the given path's name classifies into (patch names in patchfiles, everything else in distfiles)
+        ET = "distinfo::EntryType"
+        sel = {}
+        cls_ok = True
+        for p in ps:
+            v = None
+            for (t, fact) in discr_facts(p):
+                st = strip_refs(t)
+                if is_call(st, "EntryType as std::convert::From<P>>::from", "EntryType::from") and fact[0] == "eq":
+                    v = variant_by_discr(fx, ET, fact[1])
+                    arg = content(call_args(st)[0])
+                    if arg != ("param", 2) and not (is_call(arg, "AsRef", "::as_ref") and content(call_args(arg)[0]) == ("param", 2)):
+                        cls_ok = False
+            if v is None:
+                continue
+            for e in p.events:
+                if ev_is(e, "Distinfo::get_distfile", "Distinfo::get_patchfile"):
+                    sel.setdefault(v, set()).add(e.name.rsplit("::", 1)[-1])
+        ctx.check(sel.get("Distfile") == {"get_distfile"} and sel.get("Patchfile") == {"get_patchfile"} and cls_ok, "D3-LOOKUP", FE, "map-by-name-class",
+                  "patch names are looked up among patch entries, other names among distfiles; the class is that of the given path",
+                  "find_entry searches %s (class taken from the path argument itself: %s): an entry recorded as a patch must be looked up among the patches and vice versa" % (
+                      {k: sorted(v) for k, v in sel.items()}, cls_ok), fn_span(body))
         nf = [p for p in ret_paths(ps) if unwrap_err(p.end[1]) is not None]
         ok = bool(nf) and all(agg_variant(unwrap_err(p.end[1])) and agg_variant(unwrap_err(p.end[1]))[1] == "NotFound" and
                               any(c.term[0] == "discr" and is_call(c.term[1], "::next") and c.fact == ("eq", 0) for c in p.conds()) for p in nf)
